@@ -70,6 +70,19 @@ def generate(rng, tier):
         nk = 1 if op[0] == 'sort' else rng.choice([1, 1, 2, 3])
         seqs = [gen_seq(rng, op) for _ in range(nk * rng.choice([1, 1, 2]))]
         cases.append({'op': op, 'seqs': seqs, 'order': rng.random()})
+    # back-to-back lifetimes of one key (created again right after its completion, no event of another key in between -
+    # consecutive windows of split / roll do that): nothing of the previous lifetime may be remembered.  Every operator
+    # in every run, the later lifetime starting with, containing and ending with values of the earlier one.
+    if tier != 'search':
+        b2b_ops = [['first'], ['last'], ['take', 1], ['take', 2], ['distinct', None], ['distinct', ['mod', 3]], ['duc', None],
+                   ['duc', ['floordiv', 2]], ['lag', 1], ['lag', 2], ['lag', 3], ['pad_start', 2, enc(None)], ['pad_end', 2, enc(None)],
+                   ['pad_end', 1, enc(77)], ['start_with', [enc(50)]], ['batch', 2], ['batch', 3]]
+        for op in b2b_ops:
+            for same_start in (True, False):
+                a = [rng.choice([1, 2, 3, 5]) for _ in range(rng.choice([1, 2, 3, 4, 5]))]
+                b = [a[-1] if same_start else a[-1] + 10] + [rng.choice([1, 2, 3, 5, a[0]]) for _ in range(rng.choice([0, 1, 2, 4]))]
+                c3 = [b[-1], a[0]] if same_start else [b[-1] + 20, a[0]]
+                cases.append({'op': op, 'seqs': [[enc(x) for x in s] for s in (a, b, [], c3)], 'order': rng.random(), 'b2b': True})
     # scale: parameters and sequence lengths beyond small-int / buffer / type-width thresholds (257+, 300, 1000+); a
     # fixed list of operators, every one in every run, on sequences around and beyond twice the parameter
     def scale_ops():
@@ -97,7 +110,7 @@ def trace_of(case):
     slots = [3, 0, 5]
     q = {}
     for i, s in enumerate(case['seqs']):
-        key = [slots[i % 3]]
+        key = [slots[0 if case.get('b2b') else i % 3]]      # b2b: every lifetime on ONE slot, back to back
         q.setdefault(key[0], []).extend([['c', key, i]] + [['n', key, x] for x in s] + [['d', key]])
     queues = list(q.values())
     t = []
